@@ -129,3 +129,70 @@ static void world_rule (void)
 }
 /* (the name is passed as the harness pointer itself: a pointer that is only tied to it by the assumed precondition has no points-to set) */
 void h_rule_start (void) { struct symb *lhs; const char *an; int c; _Bool with; world_rule (); an = with ? gh_name : NULL; rule_new_start (lhs, an, c); if (an) VACUITY_CANARY_N ("with abstract node"); else VACUITY_CANARY_N ("without"); }
+
+/* ---- T.rule.add / T.rule.stop: the open right-hand side array in the rule storage ---- */
+#ifndef RCAP
+#define RCAP 4
+#endif
+size_t gh_k; char gh_byte;          /* ghost byte of the right-hand side array as it was before the call */
+size_t gh_oi;                       /* ghost index into the order array */
+#define ROS (&rules_ptr->rules_os)
+/* what OS.top.expand proves about _OS_expand_memory for a NON-empty top object (objstack.spec.c: os_expand_use_c): a fresh, larger segment;
+   the top object starts its payload with the same length and the same bytes (ghost byte) */
+void os_expand_keep_c (os_t *os, size_t additional_length)
+__CPROVER_requires (gh_k < TOPLEN (os) ==> gh_byte == os->os_top_object_start[gh_k])
+__CPROVER_assigns (os->os_current_segment, os->os_top_object_start, os->os_top_object_free, os->os_boundary, gh_newlen)
+__CPROVER_ensures (gh_newlen >= OS_DEFAULT_SEGMENT_LENGTH && gh_newlen <= 2 * CAP + OS_DEFAULT_SEGMENT_LENGTH + RCAP * 16
+                   && gh_newlen >= (size_t) (OFF (__CPROVER_old (os->os_top_object_free)) - OFF (__CPROVER_old (os->os_top_object_start))) + additional_length)
+__CPROVER_ensures (__CPROVER_is_fresh (os->os_current_segment, gh_newlen + HDR))
+__CPROVER_ensures (__CPROVER_pointer_in_range_dfcc (SEGB (os) + PAY, os->os_top_object_start, SEGB (os) + PAY))
+__CPROVER_ensures (__CPROVER_pointer_in_range_dfcc (SEGB (os) + PAY + (OFF (__CPROVER_old (os->os_top_object_free)) - OFF (__CPROVER_old (os->os_top_object_start))), os->os_top_object_free,
+                                                    SEGB (os) + PAY + (OFF (__CPROVER_old (os->os_top_object_free)) - OFF (__CPROVER_old (os->os_top_object_start)))))
+__CPROVER_ensures (__CPROVER_pointer_in_range_dfcc (SEGB (os) + PAY + gh_newlen, os->os_boundary, SEGB (os) + PAY + gh_newlen))
+__CPROVER_ensures (gh_k < TOPLEN (os) ==> os->os_top_object_start[gh_k] == gh_byte)
+;
+#define RHSLEN (rules_ptr->curr_rule->rhs_len)
+/* rule_new_symb_add: the array grows by one: the symbol replaces the end marker, a new end marker follows; what was there before stays (byte by byte: ghost byte), wherever the array now lives */
+void rule_add_c (struct symb *symb)
+__CPROVER_requires (rules_ptr != NULL && rules_ptr->curr_rule != NULL && RHSLEN >= 0 && RHSLEN < RCAP && rules_ptr->n_rhs_lens >= 0 && rules_ptr->n_rhs_lens < 100000)
+__CPROVER_requires (TOPLEN (ROS) == ((size_t) RHSLEN + 1) * sizeof (struct symb *))                    /* the top object of the rule storage is the open array: rhs_len symbols and the end marker */
+__CPROVER_requires (gh_k < (size_t) RHSLEN * sizeof (struct symb *) && gh_byte == ROS->os_top_object_start[gh_k] || gh_k >= (size_t) RHSLEN * sizeof (struct symb *))
+__CPROVER_assigns (rules_ptr->curr_rule->rhs, RHSLEN, rules_ptr->n_rhs_lens, rules_ptr->rules_os, gh_newlen, __CPROVER_object_from (ROS->os_top_object_free))
+__CPROVER_ensures (RHSLEN == __CPROVER_old (RHSLEN) + 1 && rules_ptr->n_rhs_lens == __CPROVER_old (rules_ptr->n_rhs_lens) + 1)
+__CPROVER_ensures ((char *) rules_ptr->curr_rule->rhs == ROS->os_top_object_start && TOPLEN (ROS) == ((size_t) RHSLEN + 1) * sizeof (struct symb *))
+__CPROVER_ensures (rules_ptr->curr_rule->rhs[RHSLEN - 1] == symb && rules_ptr->curr_rule->rhs[RHSLEN] == NULL)
+__CPROVER_ensures (gh_k < ((size_t) RHSLEN - 1) * sizeof (struct symb *) ==> ((char *) rules_ptr->curr_rule->rhs)[gh_k] == gh_byte)
+;
+/* rule_new_stop: the array is finished where it is (same bytes); the order array is a new object of rhs_len entries, all -1 (none for an empty right-hand side); the top object is empty again */
+void rule_stop_c (void)
+__CPROVER_requires (rules_ptr != NULL && rules_ptr->curr_rule != NULL && RHSLEN >= 0 && RHSLEN <= RCAP)
+__CPROVER_requires (TOPLEN (ROS) == ((size_t) RHSLEN + 1) * sizeof (struct symb *) && (char *) rules_ptr->curr_rule->rhs == ROS->os_top_object_start)
+__CPROVER_requires (gh_k < TOPLEN (ROS) && gh_byte == ROS->os_top_object_start[gh_k])
+__CPROVER_assigns (rules_ptr->curr_rule->order, rules_ptr->rules_os, gh_newlen, __CPROVER_object_from (ROS->os_top_object_free))
+__CPROVER_ensures (RHSLEN == 0 ? rules_ptr->curr_rule->order == NULL : (rules_ptr->curr_rule->order != NULL && OFF (rules_ptr->curr_rule->order) % sizeof (int) == 0))
+__CPROVER_ensures ((RHSLEN > 0 && gh_oi < (size_t) RHSLEN) ==> rules_ptr->curr_rule->order[gh_oi] == -1)
+__CPROVER_ensures (TOPLEN (ROS) == 0)
+__CPROVER_ensures (((char *) rules_ptr->curr_rule->rhs)[gh_k] == gh_byte)                                                  /* the finished array has not moved and has not changed */
+/* the order array does not overlap the right-hand side array */
+__CPROVER_ensures (RHSLEN == 0 || !__CPROVER_same_object (rules_ptr->curr_rule->order, rules_ptr->curr_rule->rhs)
+                   || OFF (rules_ptr->curr_rule->order) >= OFF (rules_ptr->curr_rule->rhs) + ((size_t) RHSLEN + 1) * sizeof (struct symb *))
+;
+static void world_rhs (void)
+{
+  os_t *os; size_t L, so, len; int n;
+  HAVOC (gh_newlen); HAVOC (gh_k); HAVOC (gh_byte); HAVOC (gh_oi);
+  rules_ptr = malloc (sizeof (struct rules)); __CPROVER_assume (rules_ptr != NULL); os = &rules_ptr->rules_os;
+  rules_ptr->curr_rule = malloc (sizeof (struct rule)); __CPROVER_assume (rules_ptr->curr_rule != NULL);
+  __CPROVER_assume (n >= 0 && n <= RCAP); rules_ptr->curr_rule->rhs_len = n; len = ((size_t) n + 1) * sizeof (struct symb *);
+  /* a segment whose top object is the open array */
+  __CPROVER_assume (L >= 1 && L <= CAP + RCAP * 16 && so >= PAY && so % _OS_ALIGNMENT == 0 && so + len <= PAY + L);
+  os->os_current_segment = malloc (L + HDR); __CPROVER_assume (os->os_current_segment != NULL);
+  os->os_top_object_start = SEGB (os) + so; os->os_top_object_free = os->os_top_object_start + len; os->os_boundary = SEGB (os) + PAY + L;
+  HAVOC (os->os_alloc); __CPROVER_assume (os->os_alloc != NULL); os->initial_segment_length = L;
+  rules_ptr->curr_rule->rhs = (struct symb **) os->os_top_object_start; rules_ptr->curr_rule->rhs[n] = NULL; rules_ptr->curr_rule->order = NULL;
+}
+void h_rule_add (void) { struct symb *s; world_rhs (); __CPROVER_assume (RHSLEN < RCAP);
+  if (gh_k < (size_t) RHSLEN * sizeof (struct symb *)) gh_byte = ROS->os_top_object_start[gh_k];
+  rule_new_symb_add (s); if (RHSLEN == RCAP) VACUITY_CANARY_N ("longest array"); else VACUITY_CANARY_N ("shorter"); }
+void h_rule_stop (void) { world_rhs (); __CPROVER_assume (gh_k < TOPLEN (ROS)); gh_byte = ROS->os_top_object_start[gh_k];
+  rule_new_stop (); if (RHSLEN == 0) VACUITY_CANARY_N ("empty right-hand side"); else VACUITY_CANARY_N ("order array made"); }
